@@ -112,6 +112,11 @@ def mod_half(a, b):
     return b * (a % 0.5)
 
 
+def neg_mod(a, b):
+    # a modulo inside a product with a negative factor
+    return -b * (a % 0.5)
+
+
 def half_sum(a, b, k):
     # a numeric factor, a symbol and a sum in one product
     return 0.5 * k * (a + b)
@@ -187,6 +192,7 @@ ARITY = {
     "half_of": 1,
     "floordiv2": 2,
     "mod_half": 2,
+    "neg_mod": 2,
     "half_sum": 3,
     "twice_diff": 3,
     "circle": 1,
